@@ -13,7 +13,7 @@ RULE = (
     "random dimension names) x constructor spellings of periodic/boundary/fill_value/default_shifts x one call of "
     "diff/interp/min/max over 1-3 axes in random order with per-call boundary/fill_value spellings (None, scalar, "
     "total or partial mapping), `to` given or omitted, 0-2 extra dims and unoperated grid dims in shuffled order; "
-    "exact-safe quarter-integer data (bit-exact comparison) or hostile floats (8-ulp). Oracle: geometric two-point "
+    "exact-safe quarter-integer data (bit-exact comparison) or hostile floats (8-ulp), float64 / float32 / int64, C / F / strided / read-only memory, one case in eight dask-backed with random chunks (also along operated dimensions). Oracle: geometric two-point "
     "stencil model + rule resolution model + hand-written padding. Verdicts: values, dims/order, shape, chained "
     "single-axis equivalence, default shift. A case class is (op, per-axis (from,to,rule,rule source), #extra dims, "
     "data kind); non-trivial iff some shift reads a boundary value or several axes are named."
@@ -124,6 +124,10 @@ def gen_case(rng, i, tier):
         ctor["fill_value"] = intfill(ctor.get("fill_value"))
         if "fill_value" in call:
             call["fill_value"] = intfill(call["fill_value"])
+    if rng.random() < 0.12:
+        # dask-backed input, chunked along any dimension (an operated one too, unless its shift involves inner / outer,
+        # which is refused for chunked data): what the operators return is the same array of numbers
+        data["lazy"] = rng.getrandbits(31)
     return {
         "layout": layout,
         "ctor": ctor,
@@ -145,7 +149,7 @@ def make_grid(desc, **kw):
     return ds, g
 
 
-def make_da(desc, ds):
+def make_da(desc, ds, allow_lazy=False):
     import xarray as xr
 
     shape = [ds.sizes[d] for d in desc["dims"]]
@@ -164,7 +168,17 @@ def make_da(desc, ds):
     elif layout == "readonly":
         data = data.copy()
         data.setflags(write=False)  # operations never need to write into their input
-    return xr.DataArray(data, dims=desc["dims"], name=desc.get("name"))
+    da = xr.DataArray(data, dims=desc["dims"], name=desc.get("name"))
+    if allow_lazy and desc["data"].get("lazy") is not None:
+        import random
+
+        r = random.Random(desc["data"]["lazy"])
+        cm = gen.layout_coords(desc["layout"])
+        opax, to_eff = effective_to(desc)
+        keep = {cm[a][desc["pos"][a]] for a in opax if {desc["pos"][a], to_eff[a]} & {"inner", "outer"}}
+        chunks = {d: (gen.random_composition(r, da.sizes[d]) if (d not in keep and r.random() < 0.7) else (da.sizes[d],)) for d in da.dims}
+        da = da.chunk(chunks)
+    return da
 
 
 def close(a, b, kind):
@@ -248,7 +262,7 @@ def run_case(ctx, desc):
         ctx.judged(("ctor-raise",), True)
         ctx.violation("grid-constructor-accepts", f"Grid(...) raised {type(e).__name__}: {e}", mechanism=None)
         return
-    da = make_da(desc, ds)
+    da = make_da(desc, ds, allow_lazy=True)
     opax, to_eff = effective_to(desc)
     rules = {a: resolve.in_force(a, desc["ctor"], call) for a in opax}
     src = {}
@@ -268,7 +282,7 @@ def run_case(ctx, desc):
         len(desc["extra"]),
         kind,
         "default-to" if "to" not in call else "to",
-    )
+    ) + (("lazy",) if desc["data"].get("lazy") is not None else ())
     axis_arg = tuple(call["axis"]) if call.get("axis_tuple") else call["axis"]
     try:
         r = getattr(g, op)(da, axis_arg, **call_kwargs(call))
